@@ -25,7 +25,7 @@ func vC18SameSite(k int) (string, http.SameSite) {
 	return "none", http.SameSiteNoneMode
 }
 
-// verif: unwind=5 strlen=10 also=C11
+// verif: unwind=5 strlen=10 also=C11,C16
 func vh_C18_make() {
 	nd := ndChoice("ndomains", 4)
 	if verifThorough() {
